@@ -275,7 +275,9 @@ class SoCBusHandler(LiteXModule):
         size_pow2 = 2**log2_int(size, False)
         for _, search_region in search_regions.items():
             origin = search_region.origin
-            while (origin + size) < (search_region.origin + search_region.size_pow2):
+            # Stay inside the Search Region (its real size, not its rounded size) and the Address Space.
+            search_end = min(search_region.origin + search_region.size, 2**self.address_width)
+            while (origin + size) < search_end:
                 # Align Origin on Size.
                 if (origin%size_pow2):
                     origin += (size_pow2 - origin%size_pow2)
